@@ -9,6 +9,12 @@ from vakt.checker import RulesChecker
 MODULE = 'Props.C04'
 THEOREMS = ['Vakt.C04.rules_field_iff', 'Vakt.C04.rules_total', 'Vakt.C04.rules_pos_irrelevant',
             'Vakt.C04.attrs_ok_iff', 'Vakt.C04.never_match_cases']
+# RulesChecker.fits (with _check_satisfied), translated from /repo/vakt/checker.py in this run, is the model's rulesFits
+# (lean/Gen/EquivRulesChecker.lean; a separate build target)
+EXTRA_BUILD = ['+Gen.EquivRulesChecker']
+GEN_IMPORTS = ['Gen.EquivRulesChecker']
+GEN_THEOREMS = ['Vakt.GenEquiv.gen_RulesChecker_fits', 'Vakt.GenEquiv.check_satisfied_eval',
+                'Vakt.GenEquiv.translatedRulesChecker_covers']
 FLOOR = {'quick': 300, 'thorough': 5000}
 FIELDS = {'a': ('actions', 'action'), 's': ('subjects', 'subject'), 'r': ('resources', 'resource')}
 
